@@ -104,6 +104,7 @@ Proof.
   assert (Hu : is_u32 (zlen t)) by (unfold is_u32; pose proof (zlen_nonneg t); lia).
   change ld_tag_str with T_STRING.
   cbn [app]. rewrite <- app_assoc. rewrite load_u32_ok by assumption.
+  cbn [v_str_check fixed_variant andb].
   replace (zlen t >? zlen (t ++ rest)) with false.
   2:{ rewrite zlen_app. pose proof (zlen_nonneg rest). lia. }
   replace (u32 (zlen t + 1) <? zlen t + 1) with false.
@@ -1043,6 +1044,7 @@ Proof.
   pose proof (be32_val_range _ _ _ _ H3 H2 H1 H0) as Hr.
   set (l := be32_val b3 b2 b1 b0) in *.
   rewrite !zlen_cons in Hlen. pose proof (zlen_nonneg s1).
+  cbn [v_str_check fixed_variant andb].
   destruct (l >? zlen s1) eqn:El; [exact I|].
   replace (u32 (l + 1) <? l + 1) with false by (rewrite u32_id; unfold is_u32 in *; lia).
   exists (firstn (Z.to_nat l) s1). repeat split.
